@@ -67,3 +67,6 @@ def run(ctx):
             continue
         seen.add(f["kind"])
         ctx.violation("gvt-" + f["kind"], dict(f, replay_argv=st["argv"]), True)
+    # node level on real multi-rank runs: the counting core replayed on Model/GvtNode.lean
+    from props import gvtnode
+    gvtnode.run(ctx)
